@@ -1,5 +1,5 @@
 #!/venv/bin/python
-"""import_seed.py <Cxx> [<srcdir> [<worktree>]] — confirm and import seeded changes written by a sub-agent.
+"""import_seed.py <Cxx> [<srcdir> [<worktree> [<tag>]]] — confirm and import seeded changes written by a sub-agent.
 
 For every <srcdir>/m*/ (default /tmp/mutout-Cxx) with patch.diff + demo.py: in the scratch worktree
 (default /tmp/mut-Cxx, must be clean) confirm that (1) the demo passes on the unmodified tree,
@@ -25,6 +25,7 @@ def main():
     pid = sys.argv[1]
     src = sys.argv[2] if len(sys.argv) > 2 else "/tmp/mutout-" + pid
     wt = sys.argv[3] if len(sys.argv) > 3 else "/tmp/mut-" + pid
+    tag = sys.argv[4] if len(sys.argv) > 4 else ""          # e.g. "r2" -> seeded/Cxx-r2m1
     env = dict(os.environ, PYTHONPATH=wt)
     env.pop("DEAP_VERIF", None)
     rc, out = sh(["git", "-C", wt, "status", "--porcelain"])
@@ -60,7 +61,7 @@ def main():
         if not confirmed:
             ok_all = False
             continue
-        dst = os.path.join(VERIF, "seeded", "%s-%s" % (pid, m))
+        dst = os.path.join(VERIF, "seeded", "%s-%s%s" % (pid, tag, m))
         os.makedirs(dst, exist_ok=True)
         shutil.copy(patch, os.path.join(dst, "patch.diff"))
         shutil.copy(demo, os.path.join(dst, "demo.py"))
